@@ -16,6 +16,8 @@ import (
 	"google.golang.org/protobuf/types/known/wrapperspb"
 )
 
+var errAppCause = errors.New("verif: the application gave up for a reason of its own")
+
 type cop struct {
 	op  string
 	pay string
@@ -114,9 +116,17 @@ func newCall(parent context.Context, st Step) *call {
 		md.Set(tokenKey, fmt.Sprintf("%d", st.C))
 		ctx = metadata.NewOutgoingContext(parent, md)
 	}
-	if st.To != 0 {
+	switch {
+	case st.What == "cause" && st.To != 0:
+		// the caller's context ends with a cause of the application's own (context.Cause): its Err() is still
+		// DeadlineExceeded / Canceled, and that is what the call reports
+		cl.ctx, cl.cancel = context.WithTimeoutCause(ctx, time.Duration(st.To)*time.Millisecond, errAppCause)
+	case st.What == "cause":
+		c2, cc := context.WithCancelCause(ctx)
+		cl.ctx, cl.cancel = c2, func() { cc(errAppCause) }
+	case st.To != 0:
 		cl.ctx, cl.cancel = context.WithTimeout(ctx, time.Duration(st.To)*time.Millisecond)
-	} else {
+	default:
 		cl.ctx, cl.cancel = context.WithCancel(ctx)
 	}
 	return cl
